@@ -84,6 +84,10 @@ static bool inv(C& c)
             auto& lb = c.m_lfu_list.m_pool[li].kv.second;
             if (lb.l != &L || lb.i != cur)
                 return false;
+#ifndef C_IS_LFUDA
+            if (c.m_lfu_list.m_pool[li].kv.first < 1) // lfu: a count starts at 1 and only grows (lfuda: aging can reach 0)
+                return false;
+#endif
 #ifdef C_IS_LFUDA
             int64_t age = tp_i(e.m_dynamic_age);
             if (age < 0 || age > last_now)
